@@ -76,7 +76,9 @@ func (r *Report) add(rule, construct string, v Verdict, site, detail string) {
 	}
 }
 
-func (r *Report) Hold(rule, construct, site, detail string) { r.add(rule, construct, Holds, site, detail) }
+func (r *Report) Hold(rule, construct, site, detail string) {
+	r.add(rule, construct, Holds, site, detail)
+}
 func (r *Report) Violate(rule, construct, site, detail string) {
 	r.add(rule, construct, Violated, site, detail)
 }
